@@ -17,6 +17,14 @@ CLAIMED = {
          "Seeded deterministic simulation in which an error and up to three references travel independent routes through knowing and unknowing processes and back to the origin; invariants per delivery: the Is row of the transferred error against the local reference pool equals the origin row at knowing processes (stdlib sentinels at unknowing ones), pairs that meet at a knowing process answer as at the origin, a transferred reference answers as the original unless the origin match is not explainable by mark equality (reference model of marks), no new match ever appears, IsAny equals the disjunction. Sampling, not proof.",
          "5/C02", "trusted: reference model of mark equality (message + full type-mark chain, explicit marks from Mark) used only to decide which origin matches a copy can be expected to keep; text changes in transit are reported with the texts so that recorded C01/C04 findings are recognised",
          "deterministic simulation: multi-flow cluster simulation with per-delivery Is-row invariants against a mark-equality reference model"),
+ "C11": ("exploration",
+         "Seeded deterministic simulation of k-hop transfers (k<=8) between knowing processes with duplication and reordering; per-delivery invariant: every public accessor (hints, details, issue links, telemetry keys, domain, context tags, flags, HTTP/gRPC codes, OS predicates, one-line source), per-layer safe details (barrier/secondary layers excepted as the property states) and per-layer reportable stack frames equal their values before the first hop. Sampling, not proof.",
+         "5/C11", "trusted: obs accessor wrappers; OS predicates are not compared when a visible layer answers them through its own methods although no decoder exists for its type (not a 'known type')",
+         "deterministic simulation: cluster simulation with per-delivery accessor invariants"),
+ "C13": ("exploration",
+         "Seeded deterministic simulation of trees forced to contain multi-cause nodes, sent over routes of knowing and unknowing processes; per delivery: branch count/order/shape and branch texts, message tokens of every branch in %+v, Unwrap/UnwrapOnce nil at multi nodes, Is = self-match (reference model: identity, own Is method, mark equality) or some branch, IsAny = disjunction, As assigns the first node in reference depth-first branch order; at the origin Join drops nils and joins texts with newlines. Sampling, not proof.",
+         "5/C13", "trusted: reference model of self-match and of the depth-first order; at unknowing processes texts are compared only for nodes whose text does not depend on how a multi-cause node renders (that is C04's subject)",
+         "deterministic simulation: cluster simulation with per-delivery tree-semantics oracles against a reference model"),
 }
 
 NOT_APPLICABLE = {
